@@ -79,6 +79,43 @@ def obs(n):
             "h": bool(n._head), "ty": ocps(n.type), "d": [obs(d) for d in n.daughters]}
 
 
+def real_parents(top):
+    """pre-order list [number-or-None, number of the object `.parent` points to] of the real objects:
+    non-terminals are numbered in pre-order (= creation order in both parsers); the parsers rebuild the
+    top as a new Derivation sharing the daughters list, so a `.parent` that is the pre-rebuild top
+    object (recognised by that shared list) counts as the top; an unknown object is -1"""
+    num = {}
+    order = []
+
+    def rec(n):
+        order.append(n)
+        if isinstance(n, D.UDFNode):
+            num[id(n)] = len(num)
+            for d in n.daughters:
+                rec(d)
+    rec(top)
+    out = []
+    for n in order:
+        p = n.parent
+        if p is None:
+            pu = None
+        elif id(p) in num:
+            pu = num[id(p)]
+        elif isinstance(p, D.UDFNode) and p.daughters is top.daughters:
+            pu = num[id(top)]
+        else:
+            pu = -1
+        out.append([num.get(id(n)) if isinstance(n, D.UDFNode) else None, pu])
+    return out
+
+
+def guarded_parents(f):
+    try:
+        return real_parents(f())
+    except Exception:
+        return None
+
+
 def guarded(f):
     try:
         return {"ok": f()}
@@ -208,8 +245,9 @@ def has_newline_string(t):
 ENTS = ["a", "np", "hd-cmp_u_c", "S", "x_y", "n_-_pn_le", "b2", "Q", "sb-hd_mc_c",
         # case variants of one name (UDFNode.__eq__ lower-cases entities; the strings must still be kept exactly)
         "Foo", "foo", "FOO", "np_x", "NP_X", "Np_x", "A", "NP", "s", "q", "HD-CMP_U_C", "X_y",
+        "SUBJH", "Kim_NP1", "ROOT",
         "\\x", 'e"q', "\\X", 'E"Q']
-N_PLAIN_ENTS = 21
+N_PLAIN_ENTS = 24
 TYPES = ["t", "n_-_c_le", "typ", "a@b", "T2", "Typ", "TYP", "T", "N_-_C_LE", "A@b", "t2"]
 ROOTS = ["root", "root_informal", "r", "Root", "ROOT", "R"]
 CASE_FAMILIES = [["Foo", "foo", "FOO", "fOO"], ["np_x", "NP_X", "Np_X"], ["a", "A"], ["s", "S"],
@@ -295,11 +333,17 @@ class Gen:
 
     def term(self):
         rng = self.rng
-        k = rng.choice([0, 0, 1, 1, 1, 2, 3])
         nl = self.allow_nl and rng.random() < 0.4
-        toks = []
-        for _ in range(k):
-            toks.append((rng.choice([0, 1, 2, 7, 42, 10, 123]), gen_tfs(rng, nl, self.allow_paren)))
+        k = rng.choice([0, 0, 1, 1, 1, 2, 2, 3, 4])
+        ids = [rng.choice([0, 1, 2, 4, 7, 9, 42, 10, 123, 10**9, 2**31, 2**63]) for _ in range(k)]
+        order = rng.random()
+        if order < 0.25:
+            ids.sort()
+        elif order < 0.55:
+            ids.sort(reverse=True)
+        elif order < 0.7 and k >= 2:
+            ids[1] = ids[0]                       # duplicate ids
+        toks = [(i, gen_tfs(rng, nl, self.allow_paren)) for i in ids]
         form = gen_form(rng, nl, self.allow_paren)
         if self.ffam and rng.random() < 0.7:
             form = rng.choice(self.ffam)
@@ -366,6 +410,29 @@ def enum_small_trees():
     for e in ("np_x", "NP_X", "Np_X", "np_x"):
         out.append(N(1, e, "-1", 0, 1, [T("The", [(1, "Tok"), (2, "tok")])], True, e.swapcase()))
         out.append(R("Root" if e.islower() else "root", [N(1, e, "-1", 0, 1, [T("the")])]))
+    # token lists whose ids are descending / shuffled / duplicated / 0 and large: order must be kept
+    for toks in ([(9, "a"), (4, "b")], [(3, "c"), (1, "a"), (2, "b")], [(5, "x"), (5, "y")],
+                 [(0, "z"), (10**9, "y"), (0, "x"), (7, "w")], [(2**63, "big"), (0, "zero")],
+                 [(4, "same"), (3, "same"), (2, "same")]):
+        out.append(N(1, "n_-_pn_le", "-1", 0, 1, [T("ad hoc", toks)]))
+        out.append(R("root", [N(1, "a", "0", 0, 2, [N(2, "b", "0", 0, 1, [T("ad hoc", toks)], True),
+                                                     N(3, "c", "0", 1, 2, [T("x", list(reversed(toks)))])])]))
+    # forms / tfs ending in an escaped quote or an escaped backslash
+    for f, tf in (('say \\"hi\\"', 'x \\"'), ('\\"', '\\"'), ('a\\\\', 'b\\\\'), ('\\\\\\"', 'q \\\\\\"')):
+        out.append(N(1, "a", "-1", 0, 1, [T(f, [(1, tf), (0, tf + " ")])]))
+    # head mark on an only daughter and on the top node of a root-less derivation
+    out.append(N(1, "SUBJH", "-1", 0, 1, [N(2, "Kim_NP1", "0", 0, 1, [N(3, "n", "0", 0, 1, [T("Kim")], True)], True)],
+                 True))
+    out.append(R("ROOT", [N(1, "SUBJH", "-1", 0, 1, [N(2, "Kim_NP1", "0", 0, 1, [T("Kim")], True, "Typ")], True)]))
+    # two distinct preterminals that compare == (same entity and form, default -1 spans)
+    out.append(N(1, "s", "-1", -1, -1, [N(2, "n", "-1", -1, -1, [T("x")]), N(3, "n", "-1", -1, -1, [T("x")])]))
+    out.append(N(1, "s", "-1", -1, -1, [N(2, "n", "-1", -1, -1, [T("x")]), N(2, "n", "-1", -1, -1, [T("x")]),
+                                        N(2, "n", "-1", -1, -1, [T("x")])]))
+    # unbalanced: a preterminal first daughter followed by a phrasal daughter (and the mirror image)
+    phr = N(3, "c", "0", 1, 3, [N(4, "d", "0", 1, 2, [T("y")]), N(5, "e", "0", 2, 3, [T("z")])])
+    out.append(N(1, "a", "-1", 0, 3, [N(2, "b", "0", 0, 1, [T("x")]), phr]))
+    out.append(N(1, "a", "-1", 0, 3, [phr, N(2, "b", "0", 0, 1, [T("x")])]))
+    out.append(R("ROOT", [N(1, "a", "-1", 0, 3, [N(2, "b", "0", 0, 1, [T("x")]), phr, N(6, "f", "0", 3, 4, [T("w")])])]))
     # unary chain, ternary branching
     c = N(4, "d", "2e-05", 0, 1, [T("z", [(0, ""), (1, " "), (2, "]")])], True, None)
     out.append(N(1, "a", "-1", 0, 1, [N(2, "b", "-1", 0, 1, [N(3, "c", "-1", 0, 1, [c])])]))
@@ -458,7 +525,10 @@ class C16(Check):
         "non-ASCII characters are answered 'unmodelled' and not compared",
         "\\d of the regexes is modelled as ASCII digits (generators produce no other decimal digits)",
         "token ids are non-negative (a negative id is read back without its sign by _udf_tokens)",
-        "parent pointers, object identity and is_head() exist only on the implementation side (oracle)",
+        "parent pointers are compared through the annotation layer of the model (runP / fromDictP: number of the "
+        "frame on top of the stack at creation) against the real `.parent` objects, numbered in pre-order; the "
+        "pre-rebuild top object that depth-1 nodes point to is identified with the returned top by its shared "
+        "daughters list; object identity beyond that and is_head() are oracle-only",
     ]
     trusted_base = ["hand-written model lean/Verif/C16/Model.lean (scanner emulating _udf_re alternative by "
                     "alternative; stack machine; dict projection), tied to delphin.derivation by the correspondence "
@@ -536,6 +606,17 @@ class C16(Check):
             defaults.append("%s %r %r" % (nm, fn.__defaults__, fn.__kwdefaults__))
         lines.append(lst("c16Defaults", defaults))
         return lines
+
+    unmodelled_skips = {}
+
+    def setup(self):
+        self.unmodelled_skips = {}
+
+    def extra_evidence(self):
+        return {"unmodelled_skips": dict(self.unmodelled_skips),
+                "unmodelled_skips_note": "per-key comparisons skipped because the model answered 'unmodelled' "
+                                         "(int()/float() spellings with '_' or non-ASCII characters; dictionary "
+                                         "entries without id that carry score/start/end/type/head)"}
 
     # ---- cases
     def cases(self, rng, tier, n):
@@ -617,6 +698,9 @@ class C16(Check):
                     "p_udx": guarded(lambda: obs(D.from_string(udx))),
                     "dict": canon_dict(d),
                     "fd": guarded(lambda: obs(D.from_dict(d))),
+                    "par_udf": guarded_parents(lambda: D.from_string(udf)),
+                    "par_udx": guarded_parents(lambda: D.from_string(udx)),
+                    "par_fd": guarded_parents(lambda: D.from_dict(d)),
                     "terminals": [obs(x) for x in top.terminals()],
                     "preterminals": [obs(x) for x in top.preterminals()],
                     "internals": [obs(x) for x in top.internals()]}
@@ -635,10 +719,12 @@ class C16(Check):
                     evs.append({"k": "root", "tok": cps(m.group("root"))})
                 else:
                     evs.append({"k": "none"})
-            return {"scan": evs, "parse": guarded(lambda: obs(D.from_string(s)))}
+            return {"scan": evs, "parse": guarded(lambda: obs(D.from_string(s))),
+                    "parents": guarded_parents(lambda: D.from_string(s))}
         if k == "dict":
             d = real_dict(case["d"])
-            return {"fd": guarded(lambda: obs(D.from_dict(d)))}
+            return {"fd": guarded(lambda: obs(D.from_dict(d))),
+                    "par_fd": guarded_parents(lambda: D.from_dict(real_dict(case["d"])))}
         raise ValueError(k)
 
     def model_request(self, case):
@@ -666,9 +752,14 @@ class C16(Check):
         if not isinstance(answer, dict) or "proto_error" in answer:
             return {"expected_from_impl": expected, "model": answer}
         diffs = {}
+        governs = {"parents": "parse", "par_udf": "p_udf", "par_udx": "p_udx", "par_fd": "fd"}
         for key, exp in expected.items():
             got = answer.get(key)
-            if isinstance(got, dict) and got.get("err") == "unmodelled":
+            gov = answer.get(governs.get(key, key))
+            if isinstance(gov, dict) and gov.get("err") == "unmodelled":
+                if key not in governs:
+                    k2 = "%s:%s" % (case["kind"], key)
+                    self.unmodelled_skips[k2] = self.unmodelled_skips.get(k2, 0) + 1
                 continue
             if key in ("p_udf", "p_udx", "fd", "parse", "terminals", "preterminals", "internals"):
                 got = norm(got)
@@ -735,6 +826,11 @@ class C16(Check):
                 if c["daughters"] is not None:
                     c["daughters"] = [swd(x) for x in c["daughters"]]
                 return c
+            mine = real_dict(case["d"])
+            before = copy.deepcopy(mine)
+            guarded(lambda: obs(D.from_dict(mine)))
+            if not _dict_eq(mine, before):
+                fail("from_dict changed the dictionary it was given", repr(before))
             r1 = guarded(lambda: obs(D.from_dict(real_dict(case["d"]))))
             guarded(lambda: obs(D.from_dict(real_dict(swd(case["d"])))))
             r2 = guarded(lambda: obs(D.from_dict(real_dict(case["d"]))))
@@ -848,7 +944,7 @@ class C16(Check):
             d = self._attr_diff(ref, p)
             if d:
                 fail("parsed tree differs in an attribute on %s" % what, repr((d, text)))
-            if obs(p) != obs(ref):
+            if obs(p) != obs(ref) or obs(p) != (t if udx else erase_ht(t)):
                 fail("parsed tree differs in an attribute on %s" % what, repr(("obs", text)))
         if dict_shape(t):
             dd = top.to_dict()
@@ -858,7 +954,7 @@ class C16(Check):
                 fail("from_dict raises on %s" % what, repr((dd, type(e).__name__)))
                 return
             d = self._attr_diff(top, q)
-            if d or obs(q) != obs(top):
+            if d or obs(q) != obs(top) or obs(q) != t:
                 fail("from_dict(to_dict(t)) differs in an attribute on %s" % what, repr((d, dd)))
             if canon_dict(q.to_dict()) != canon_dict(dd):
                 fail("to_dict(from_dict(to_dict(t))) differs on %s" % what, repr(dd))
@@ -895,6 +991,8 @@ class C16(Check):
                 fail("from_dict changed the dictionary it was given", repr(snapshot))
 
     def _oracle_tree_battery(self, t, top, shape, erased, fail):
+        if obs(top) != t:
+            fail("the constructed derivation does not hold the attributes it was given", repr(obs(top))[:300])
         for udx in (False, True):
             name = "udx" if udx else "udf"
             ser = (lambda o, i: o.to_udx(indent=i)) if udx else (lambda o, i: o.to_udf(indent=i))
@@ -914,6 +1012,10 @@ class C16(Check):
                 d = self._attr_diff(ref, p)
                 if d or obs(p) != obs(ref):
                     fail("parsed %s tree differs from the original in an attribute" % name, repr((d, text)))
+                elif obs(p) != (t if udx else erase_ht(t)):
+                    # against the tree the objects were built FROM, not only against the built objects
+                    fail("parsed %s tree differs from the tree the derivation was built from" % name,
+                         repr(text))
                 elif not mixed(t) and (not (p == ref) or (p != ref)):
                     fail("parsed %s tree is not == the original" % name, repr(text))
                 if ind in (None, 2):
@@ -943,7 +1045,7 @@ class C16(Check):
                 fail("from_dict(to_dict(t)) raises", repr((d, type(e).__name__)))
                 return
             ad = self._attr_diff(top, q)
-            if ad:
+            if ad or obs(q) != t:
                 fail("from_dict(to_dict(t)) differs from t in an attribute", repr((ad, d)))
             elif not (q == top) or (q != top):
                 fail("from_dict(to_dict(t)) is not == t", repr(d))
@@ -982,6 +1084,12 @@ class C16(Check):
             for n in nodes:
                 if n["k"] == "t":
                     inc("term:tokens=%d" % len(n["toks"]))
+                    ids_ = [i for i, _ in n["toks"]]
+                    if len(ids_) >= 2:
+                        inc("term:token-ids-" + ("ascending" if ids_ == sorted(ids_) and len(set(ids_)) == len(ids_)
+                                                 else "duplicate" if len(set(ids_)) < len(ids_)
+                                                 else "descending" if ids_ == sorted(ids_, reverse=True)
+                                                 else "shuffled"))
                 elif n["k"] == "n":
                     if n["h"]:
                         inc("node:head")
